@@ -488,6 +488,12 @@ class LinkAligned(LinkCollection):
                                   data2.pixel_component_ids[j]))
         self._links[:] = links
 
+    @classmethod
+    def __setgluestate__(cls, rec, context):
+        # The links are re-computed from the datasets
+        return cls(data1=context.object(rec['data1']),
+                   data2=context.object(rec['data2']))
+
 
 def functional_link_collection(function, labels1=None, labels2=None,
                                display=None, description=None):
